@@ -15,6 +15,7 @@ import NumbersModel.Drv.Duration
 import NumbersModel.Drv.NumFmt
 import NumbersModel.Drv.Grid
 import NumbersModel.Drv.Merge
+import NumbersModel.Drv.Cache
 
 open NumbersModel.Drv
 
@@ -39,6 +40,7 @@ def dispatch (line : String) : String :=
     | "numfmt" :: rest => handleNumFmt rest
     | "grid" :: rest => handleGrid rest
     | "merge" :: rest => handleMerge rest
+    | "cache" :: rest => handleCache rest
     | _ => none
   match r with
   | some s => s
